@@ -1016,6 +1016,12 @@ func (h *handler) asyncSyncAdChain(ctx context.Context) {
 	h.syncMutex.Lock()
 	defer h.syncMutex.Unlock()
 
+	// The subscriber may have been closed while this sync waited.
+	if ctx.Err() != nil {
+		log.Warnw("Abandoned pending sync", "err", ctx.Err(), "peer", h.peerID)
+		return
+	}
+
 	adsDepthLimit := h.subscriber.adsDepthLimit
 	nextCid := amsg.Cid
 	latestSyncLink := h.subscriber.GetLatestSync(h.peerID)
